@@ -24,7 +24,7 @@ func init() {
 			"(e) marks are withdrawn only by the housekeeping delete of epoch-c (c >= 2) under a guard epoch > c-1; no other delete or replacement of entries exists; " +
 			"(f) the signer is reachable only through guards establishing data.Slot == duty.Slot(), source epoch <= target epoch, and target epoch both not above and not below the duty epoch; a helper's nil-error returns are checked against the same guards (errors.Wrap of a nil error counts as nil); " +
 			"(g) the slot signed is duty.Slot(); (h) the best/majority attestation-data strategies forward a response only under target != nil and target epoch == epoch of the requested slot. " +
-			"Added with the third seeding round: (i) no path leads from one signature request of a run to another (no retry or per-account re-signing after a failed batch). Added with the fourth seeding round: (j) the account managers' by-index lookups report an account only for a requested index (shared with C13.f). Added with the fifth seeding round: (k) the accounts put into the signature request are the values of the validating-accounts map, one per validator, not a walk over the duty's index list. Added with the sixth seeding round and the false-alarm regression: (x, extended) no in-place removal at the loop index followed by the next index; the cross-cutting rules below. Added with the seventh seeding round: (l) every access to the record of what was attested is made under its mutex. Added with the eighth seeding round (changes outside the anchor files): (j, extended) every non-nil result of a by-index account query is the map the query filled itself; (m) in the signer no attestation signing request follows on the failure edge of another. Added with the ninth (adversarial) seeding round: (j, extended) the exported by-index wrappers hand on the answer of a by-index query only. NOT decided: that the in-memory set survives restarts or a second instance; that the account provider returns only requested indices; the signer's own slashing protection; interleavings beyond the atomic region.",
+			"Added with the third seeding round: (i) no path leads from one signature request of a run to another (no retry or per-account re-signing after a failed batch). Added with the fourth seeding round: (j) the account managers' by-index lookups report an account only for a requested index (shared with C13.f). Added with the fifth seeding round: (k) the accounts put into the signature request are the values of the validating-accounts map, one per validator, not a walk over the duty's index list. Added with the sixth seeding round and the false-alarm regression: (x, extended) no in-place removal at the loop index followed by the next index; the cross-cutting rules below. Added with the seventh seeding round: (l) every access to the record of what was attested is made under its mutex. Added with the eighth seeding round (changes outside the anchor files): (j, extended) every non-nil result of a by-index account query is the map the query filled itself; (m) in the signer no attestation signing request follows on the failure edge of another. Added with the ninth (adversarial) seeding round: (j, extended) the exported by-index wrappers hand on the answer of a by-index query only. Added with the tenth seeding round: (f, restated) the bound of the target-epoch guards is the duty epoch only (no clock reading, no max/min). NOT decided: that the in-memory set survives restarts or a second instance; that the account provider returns only requested indices; the signer's own slashing protection; interleavings beyond the atomic region.",
 		Technique:   "call-graph who-may-call, SSA guard/edge-deletion queries with relation sets, guard-helper summaries through error-nilness analysis, lock-set dataflow, dominance by path deletion",
 		Rule:        "one obligation per call site (a), per signer argument (b,g), per map operation on the attested set (c,e), per guarded effect (d,f,h); non-trivial = the construct exists and a path/provenance query was evaluated",
 		Assumptions: []string{"the chain-time service's SlotToEpoch and the division slot/slotsPerEpoch denote the same epoch (numeric agreement is outside this family)"},
